@@ -38,8 +38,14 @@ def errOut : Err → String
   | .missingPair a b => "pair " ++ a.name ++ " " ++ b.name
   | .invalidType f => "type " ++ f.name
   | .notObject => "notobject"
-  -- all of these are `InputPluginFailed(message)` in the code
-  | .noCandidate | .beyondTolerance | .distanceRange | .roadClassParse | .roadClassMissing | .noEdgeMatch => "failed"
+  -- all of these are `InputPluginFailed(message)` in the code; the harness tells them apart by one key phrase of
+  -- the message each, so that a reordering of the checks does not go unnoticed
+  | .noCandidate => "failed nocandidate"
+  | .beyondTolerance => "failed beyond"
+  | .distanceRange => "failed range"
+  | .roadClassParse => "failed roadclassparse"
+  | .roadClassMissing => "failed roadclassmissing"
+  | .noEdgeMatch => "failed noedgematch"
 
 def outcomeOut (o : Outcome) : String :=
   match o.err with
@@ -132,9 +138,10 @@ def builderCase : P String := do
     let vr ← bool
     let geo ← optOf nat
     let emptyLs ← bool
+    let nonFinite ← bool
     let q ← JsonProto.json
     let oc ← tableP ecandP
-    match edgeBuilder cfg ⟨rc, vr, geo, emptyLs⟩ with
+    match edgeBuilder cfg ⟨rc, vr, geo, emptyLs, nonFinite⟩ with
     | .error e => pure ("err " ++ cfgErrOut e)
     | .ok pl => pure ("ok " ++ outcomeOut (edgeProcess (tolOfBits pl.tolerance) [] pl.hasLookup q oc []))
   | _ => failure
